@@ -24,7 +24,8 @@ _E2E = {"zz_verif_c13_common_test.go": "c14/common_e2e.go", "zz_verif_c13_gen_te
 SPEC = Spec(
     pid="C13",
     lean_modules=["OtelVerif.Props.C13"],
-    translators=[_schema_translator, go_translator("unmarshalhooks", "OtelVerif/Gen/UnmarshalHooks.lean")],
+    translators=[_schema_translator, go_translator("unmarshalhooks", "OtelVerif/Gen/UnmarshalHooks.lean"),
+                 go_translator("opaquemethods", "OtelVerif/Gen/Opaque.lean")],
     harnesses=[
         Harness(name="walk", module="confmap/xconfmap", pkg="confmap/xconfmap",
                 files={"zz_verif_c13_walk_test.go": "c13/walk_test.go"},
